@@ -19,7 +19,7 @@ RULE = ("crossovers / flip / binomial: ALL outcomes of the random draws enumerat
 ASSUMPTIONS = ["primitives return values in their documented range", "fitness / rank finite"]
 TRUSTED = ["models: coq/theories/BinaryOps.v, Pools.v, RandomPrims.v; checkers C06Check.v; translator harness/translate_pools.py", "code translator harness/translate_code.py (operator bodies -> gen/GenCode.v) over the semantics coq/theories/Py.v; models PROVED equal to the generated definitions (theories/CodeEqC06.v)"]
 THEORIES = ["Base", "RandomPrims", "RandomPrimsProofs", "RandomPrimsProofs2", "BinaryOps", "BinaryOpsProofs",
-            "Pools", "C11Check", "C06Check", "PoolsClosed", "GenPools", "Py", "PyLemmas", "GenCode", "CodeEqC11", "CodeEqC06"]
+            "Pools", "C11Check", "C06Check", "PoolsClosed", "GenPools", "Py", "PyLemmas", "GenCode", "CodeEqC11", "CodeEqC06", "DEOps", "DEOpsProofs", "CodeEqC07", "CodeEqNewIndivid"]
 IMPORTS = "From TF Require Import Base RandomPrims BinaryOps Pools C11Check C06Check.\nFrom TFG Require Import GenPools.\nFrom Coq Require Import String.\nOpen Scope string_scope."
 EPS = 2.0 ** -53
 CX = "thefittest.utils.crossovers."
@@ -33,7 +33,7 @@ GUARD = {}     # persistent copies of the parent arrays handed to the operators:
 def gen(ctx):
     TP.emit()
     import translate_code as TC
-    TC.ensure(TC.C06_FUNCS)
+    TC.ensure(TC.C06_FUNCS + TC.C06_METHODS + TC.C07_METHODS + TC.C07_FUNCS)
 
 
 def rows(ps):
